@@ -18,11 +18,14 @@ RULE = ("random histories (length <= 8 quick / <= 40 thorough) of solve() calls 
         "generated valid expression or one with a fault injected at a random token position (unknown atom, "
         "deleted operand, unbalanced parenthesis, atom constructor raising on a marker); three configurations: "
         "default operators with a recording atom, the documentation's string atom with {add, gt, par}, the "
-        "documentation's custom unary operators with custom steps; recon corpus first. non-trivial = a history "
+        "documentation's custom unary operators with custom steps; recon corpus first; plus histories in which the "
+        "buffers and self.expr are overwritten with garbage between the calls, and histories alternating between two "
+        "instances that share the operators/steps objects. non-trivial = a history "
         "in which a call after a failing call that left tokens behind is judged; distinct = the history")
 ASSUMPTIONS = [
     "the atom class is pure (constructor and methods have no state of their own); the operator table, the steps "
-    "and the operator classes are not mutated between calls",
+    "and the operator classes are not written by solve() -- checked on the real objects after every generated "
+    "history (snapshot before/after), they are parameters of the model",
     "solve() is called with strings (an Expression object passed in is consumed by the call)",
     "outcomes are compared as terms (recording atom) or as the documented string atom's values; every raised "
     "exception is one outcome 'err'",
@@ -108,17 +111,58 @@ def canon_mtok(cfg, t):
     return t
 
 
-def run_history(cfg, exprs):
+def snapshot(es):
+    """everything `solve` must NOT write: the operator dict, the step list, the class attributes"""
+    ops = [(k, id(v)) for k, v in es.operators.items()]
+    steps = [(tuple(st["operators"]), st["otype"], tuple(sorted(st.keys()))) for st in es.steps]
+    attrs = [(c.__name__, c.symbol, getattr(c, "narg", None), getattr(c, "symbol_open", None),
+              getattr(c, "symbol_separator", None), getattr(c, "symbol_close", None), c.__dict__.get("args", "absent"))
+             for c in es.operators.values()]
+    return ops, steps, attrs, id(es.tokens.atom)
+
+
+def poison(cfg, es, rng):
+    """overwrite everything a call may have left behind with garbage (C02_state_independence: the next
+    call must not read it)"""
+    from scinumtools.solver.expression import Expression
+
+    def junk():
+        r = rng.random()
+        if r < 0.3:
+            return None
+        if r < 0.6:
+            try:
+                return cfg["atom"]("7")
+            except Exception:
+                return None
+        c = rng.choice(cfg["classes"])
+        o = c.__new__(c)
+        return o
+    es.tokens.left = [junk() for _ in range(rng.randint(0, 3))]
+    es.tokens.right = [junk() for _ in range(rng.randint(0, 3))]
+    ex = Expression("junk + (")
+    ex.shift(rng.randint(0, 4))
+    es.expr = ex
+
+
+def run_history(cfg, exprs, poison_rng=None, check=None):
     """one real instance -> [(outcome, left, right)] after every call"""
     from scinumtools.solver import ExpressionSolver
     es = ExpressionSolver(cfg["atom"], cfg["operators"], cfg["steps"])
+    before = snapshot(es)
     out = []
     for s in exprs:
+        if poison_rng is not None and poison_rng.random() < 0.7:
+            poison(cfg, es, poison_rng)
         try:
             r = canon_tok(cfg, es.solve(s))
         except Exception:
             r = "err"
         out.append((r, [canon_tok(cfg, t) for t in es.tokens.left], [canon_tok(cfg, t) for t in es.tokens.right]))
+        if check is not None and getattr(es.expr, "expr", None) != s:
+            check("expr", "self.expr.expr is %r after solve(%r)" % (getattr(es.expr, "expr", None), s))
+    if check is not None and snapshot(es) != before:
+        check("config", "operators / steps / operator classes were modified by solve()")
     return out
 
 
@@ -214,7 +258,8 @@ GENS = {"default": gen_default, "strcfg": gen_str, "unarycfg": gen_unary}
 
 # ---------------------------------------------------------------- the check
 def judge(ctx, cfgname, cfg, exprs, kinds=None):
-    real = run_history(cfg, exprs)
+    real = run_history(cfg, exprs, check=lambda kind, msg: ctx.disagreement(
+        "instance-%s:%s" % (kind, cfgname), {"cfg": cfgname, "exprs": exprs}, msg))
     model = ctx._c02_models.pop(0)
     key = json.dumps([cfgname, exprs])
     nontriv = False
@@ -269,6 +314,46 @@ def judge(ctx, cfgname, cfg, exprs, kinds=None):
     ctx.case(key, nontriv, {"cfg": cfgname, "history": exprs[:4]})
 
 
+def poisoned_stream(ctx, cfgname, cfg, histories):
+    """between the calls everything an earlier call may have left is overwritten with garbage tokens and a
+    half-consumed Expression; every outcome must still be a fresh instance's"""
+    for exprs in histories:
+        real = run_history(cfg, exprs, poison_rng=ctx.rng)
+        ctx.count("%s.poisoned_calls" % cfgname, len(exprs))
+        for k, (s, (out, _, _)) in enumerate(zip(exprs, real)):
+            fresh = run_fresh(cfg, s)
+            if out != fresh:
+                ctx.violation("history:" + cfgname,
+                              "solve(%r) on a %s instance whose buffers/expr held leftovers gives %s, a fresh instance %s"
+                              % (s, cfgname, json.dumps(out)[:200], json.dumps(fresh)[:200]),
+                              {"cfg": cfgname, "exprs": exprs[:k + 1], "poisoned": True, "outcome": out, "fresh": fresh})
+                return
+        ctx.case(json.dumps(["poisoned", cfgname, exprs]), True, None)
+
+
+def interleaved_stream(ctx, cfgname, cfg, histories):
+    """two instances built on the SAME operators / steps objects, called alternately"""
+    from scinumtools.solver import ExpressionSolver
+    for exprs in histories:
+        a = ExpressionSolver(cfg["atom"], cfg["operators"], cfg["steps"])
+        b = ExpressionSolver(cfg["atom"], cfg["operators"], cfg["steps"])
+        ctx.count("%s.interleaved_calls" % cfgname, len(exprs))
+        for k, s in enumerate(exprs):
+            es = a if k % 2 == 0 else b
+            try:
+                out = canon_tok(cfg, es.solve(s))
+            except Exception:
+                out = "err"
+            fresh = run_fresh(cfg, s)
+            if out != fresh:
+                ctx.violation("history:" + cfgname,
+                              "two %s instances sharing operators/steps, called alternately: solve(%r) gives %s, "
+                              "a fresh instance %s" % (cfgname, s, json.dumps(out)[:200], json.dumps(fresh)[:200]),
+                              {"cfg": cfgname, "exprs": exprs[:k + 1], "interleaved": True, "outcome": out, "fresh": fresh})
+                return
+        ctx.case(json.dumps(["interleaved", cfgname, exprs]), True, None)
+
+
 def correspond(ctx: Ctx):
     thorough = ctx.tier == "thorough"
     rng = ctx.rng
@@ -290,6 +375,14 @@ def correspond(ctx: Ctx):
         judge(ctx, cfgname, cfgs[cfgname], exprs, kinds)
         if len(ctx.violations) >= 3:
             break
+    extra = max(30, count // 5)
+    for cfgname in ("default", "strcfg", "unarycfg"):
+        if len(ctx.violations) >= 3:
+            break
+        hs = [[GENS[cfgname](rng)[0] for _ in range(rng.randint(2, maxlen))] for _ in range(extra)]
+        poisoned_stream(ctx, cfgname, cfgs[cfgname], hs)
+        hs = [[GENS[cfgname](rng)[0] for _ in range(rng.randint(2, maxlen))] for _ in range(extra)]
+        interleaved_stream(ctx, cfgname, cfgs[cfgname], hs)
 
 
 def search(ctx: Ctx):
